@@ -563,8 +563,7 @@ class Report:
             keepb = []
             for b in self.broken:
                 by = next((v for k, v in fl.items() if b.startswith(k)), None)
-                if by is not None and self.rule_counts.get(by, 0) >= 1 and not any(w['rule'] == by for w in self.violations) \
-                        and not any((by.split('.')[-1] in x or 'cannot interpret' in x or 'cannot be interpreted' in x or 'cannot be evaluated' in x) for x in self.broken if x is not b):
+                if by is not None and any(o.get('rule') == by and o.get('ok') for o in self.obligations) and not any(w['rule'] == by for w in self.violations):
                     self.notes.append('%s - not reconstructed for this spelling of the code; the clause rests on the exploration %s, which ran on the current source and found no counterexample' % (b, by))
                     self.extra.setdefault('shape_rules_not_reconstructed', []).append(dict(rule=b[:60], decided_by=by))
                 else:
@@ -581,7 +580,7 @@ class Report:
                 keep.append(v)
                 continue
             by_failed = any(w['rule'] == by for w in self.violations)
-            by_ran = self.rule_counts.get(by, 0) >= 1 or by_failed
+            by_ran = any(o.get('rule') == by and o.get('ok') for o in self.obligations) or by_failed
             if by_failed:
                 keep.append(v)
             elif by_ran:
